@@ -851,6 +851,9 @@ def oracle_c18(run, ops, impl):
             info = contracts.get(contract)
             owner = info and (info["admin"] == sender or (info["admin"] == "" and info["creator"] == sender))
             if a[1] == "register":
+                if contract in reg:
+                    # a contract has one fee share; a second Register must be refused (redirecting it is Update's job, by the admin)
+                    out.append(V("C18:register-over-existing-registration", {"line": i + 1, "op": op, "existing": reg[contract], "info": info}))
                 factory = info and (info["admin"] == gov or (info["admin"] == "" and info["creator"] in contracts) or
                                     (info["admin"] not in ("", sender) and info["admin"] in contracts))
                 wd = "" if a[4] == "_" else a[4]
